@@ -11,4 +11,7 @@ theorem C18_source_layout :
     Gen.layoutMatrixCardNew = [["seed.to_le_bytes()", "session_key"], ["key:&md5"]] ∧
     Gen.layoutMatrixCardEnter = [["value"]] := by decide
 
+/-- C18: matrix_card.rs and rc4.rs keep no state outside the verifier / card objects -/
+theorem C18_source_no_hidden_state : Gen.matrixCardModuleHasNoSharedState = true := by decide
+
 end WowSrp
